@@ -57,6 +57,12 @@ def check_1d(case, ctx: Ctx):
     if case.get("dtype"):
         kwargs["dtype"] = case["dtype"]
     h = ctx.call("Histogram1D()", Histogram1D, binning, **kwargs)
+    if case.get("start") == "emptied_copy" and h.bin_count:
+        # the empty histogram is obtained from a used one: copy(include_frequencies=False)
+        h.fill(float((h.bins[0][0] + h.bins[0][1]) / 2))
+        h.fill_n(np.array([float((h.bins[-1][0] + h.bins[-1][1]) / 2)] * 2))
+        h = ctx.call("copy(include_frequencies=False)", lambda: h.copy(include_frequencies=False))
+        ctx.label("start_emptied_copy")
     ps = model.pairs_of(h.bins)
     n = len(ps)
     gapped = bool(model.gaps(ps))
@@ -234,6 +240,7 @@ def programs_1d(draw, tier="quick"):
         return ["fill_n", vs, ws]
 
     case["ops"] = draw(st.lists(op(), min_size=1, max_size=25 if tier == "thorough" else 12))
+    case["start"] = draw(st.sampled_from(["fresh", "fresh", "emptied_copy"]))
     return case
 
 
@@ -261,6 +268,12 @@ def check_nd(case, ctx: Ctx):
     keep = case["keep_missed"]
     klass = Histogram2D if d == 2 else HistogramND
     h = ctx.call("HistogramND()", klass, binnings, keep_missed=keep)
+    if case.get("start") == "emptied_copy" and all(b.bin_count for b in h.binnings):
+        mid = [float((b.bins[0][0] + b.bins[0][1]) / 2) for b in h.binnings]
+        h.fill(mid)
+        h.fill_n(np.array([mid, mid]))
+        h = ctx.call("copy(include_frequencies=False)", lambda: h.copy(include_frequencies=False))
+        ctx.label("start_emptied_copy")
     axes_pairs = [model.pairs_of(b) for b in h.bins]
     incl = [bool(b.includes_right_edge) for b in h.binnings]
     shape = tuple(len(p) for p in axes_pairs)
@@ -403,6 +416,7 @@ def programs_nd(draw, tier="quick"):
         return ["fill_n", rows, ws, draw(st.booleans()) and len(rows) > 0]
 
     case["ops"] = draw(st.lists(op(), min_size=1, max_size=20 if tier == "thorough" else 10))
+    case["start"] = draw(st.sampled_from(["fresh", "fresh", "emptied_copy"]))
     return case
 
 
